@@ -55,7 +55,7 @@ RECURSIVE Digits(_)
 Digits(n) == IF n < 10 THEN <<48 + n>> ELSE Digits(n \div 10) \o <<48 + (n % 10)>>
 \* group names used by the specification instances (TLC cannot take strings apart)
 NameSeq(nm) == CASE nm = "n" -> <<110>> [] nm = "m" -> <<109>> [] nm = "k" -> <<107>> [] nm = "g" -> <<103>> [] nm = "j" -> <<106>>
-                 [] nm = "x" -> <<120>> [] nm = "y" -> <<121>> [] OTHER -> <<63>>
+                 [] nm = "nn" -> <<110, 110>> [] nm = "x" -> <<120>> [] nm = "y" -> <<121>> [] OTHER -> <<63>>
 
 \* quantifier suffix exactly as pre.py spells it
 Suffix(n, m, g) ==
